@@ -564,18 +564,24 @@ func checkIn(check string) func(c progCase) (fw.Outcome, *fw.Violation) {
 		default:
 			o.Classes = append(o.Classes, "rows:<160")
 		}
-		failSpec, failSeen, unexpected := "", false, 0
+		failSpec, failSeen, unexpected := "", true, 0
+		failSpecs := map[string]bool{}
 		for i, p := range c.Progs {
 			for k, s := range p {
 				if i >= len(res.Stmts) || k >= len(res.Stmts[i]) {
 					continue
 				}
 				r := res.Stmts[i][k]
-				if s.Fail != "" {
-					failSpec = s.Fail
+				if s.Fail != "" && strings.Contains(s.Fail, ":") {
+					failSpecs[s.Fail] = true
+					o.Classes = append(o.Classes, "fail_site:"+s.Fail[:strings.Index(s.Fail, ":")], "fail_kind:"+s.Fail[strings.Index(s.Fail, ":")+1:])
 					if r.Ran && r.Err != "" {
-						failSeen = true
 						o.Classes = append(o.Classes, "worker_error:"+r.Err)
+					} else {
+						failSeen = false
+						if os.Getenv("C13_DEBUG") != "" {
+							fmt.Fprintf(os.Stderr, "C13_DEBUG expected error missing (%s): %s\n", s.Fail, s.SQL)
+						}
 					}
 					continue
 				}
@@ -592,12 +598,10 @@ func checkIn(check string) func(c progCase) (fw.Outcome, *fw.Violation) {
 				}
 			}
 		}
-		if failSpec != "" {
-			o.Classes = append(o.Classes, "fail_site:"+failSpec[:strings.Index(failSpec, ":")], "fail_kind:"+failSpec[strings.Index(failSpec, ":")+1:])
-			if !failSeen {
-				o.Classes = append(o.Classes, "expected_error_missing")
-				fw.AddExtra("expected_error_missing", 1)
-			}
+		failSpec = strings.Join(fw.SortedKeys(failSpecs), ",")
+		if failSpec != "" && !failSeen {
+			o.Classes = append(o.Classes, "expected_error_missing")
+			fw.AddExtra("expected_error_missing", 1)
 		}
 		cancelKind := ""
 		if c.Mode == "cancel" {
@@ -693,28 +697,33 @@ func runCheck(t *testing.T, name string, quick, thorough int, gen func(*rapid.T)
 }
 
 func TestC13Eval(t *testing.T) {
-	runCheck(t, "eval", 150, 3000, genEval,
-		"1-3 statements: filter, all join kinds (ON/USING/NATURAL/CROSS/LATERAL, outer), GROUP BY + aggregates (incl. LISTAGG, JSON_AGG, MEDIAN, user aggregate) / HAVING, DISTINCT, UNION/EXCEPT/INTERSECT [ALL], ORDER BY + LIMIT/OFFSET/PERCENT/WITH TIES, analytic functions with frames, FROM subqueries, CTE, correlated and scalar subqueries, user functions, regexp/datetime/json functions, variables and flags, INSERT..SELECT/UPDATE/UPDATE..FROM/DELETE/REPLACE/ALTER ADD")
+	runCheck(t, "eval", 170, 3400, genEval,
+		"1-3 statements: every built-in function of the manual except CALL (incl. RAND(), RAND(lo,hi), NOW()) and user functions whose bodies use variables, a cursor over a table, SELECT..INTO and an own temporary table, evaluated per row; correlated scalar/EXISTS/IN subqueries in the select list and WHERE with large outer/small inner and small outer/large inner (also two levels, LATERAL with a big inner table); prepared statements executed repeatedly; filter, all join kinds (ON/USING/NATURAL/CROSS/LATERAL, outer), GROUP BY + aggregates (incl. LISTAGG, JSON_AGG, MEDIAN, user aggregate) / HAVING, DISTINCT, UNION/EXCEPT/INTERSECT [ALL], ORDER BY + LIMIT/OFFSET/PERCENT/WITH TIES, analytic functions with frames, FROM subqueries, CTE, correlated and scalar subqueries, user functions, regexp/datetime/json functions, variables and flags, INSERT..SELECT/UPDATE/UPDATE..FROM/DELETE/REPLACE/ALTER ADD")
 }
 
 func TestC13LoadText(t *testing.T) {
-	runCheck(t, "load_text", 70, 1400, genLoad([]string{"CSV", "TSV", "LTSV", "FIXED"}),
+	runCheck(t, "load_text", 60, 1200, genLoad([]string{"CSV", "TSV", "LTSV", "FIXED"}),
 		"t1,t2 (and 60% of t3) are CSV/TSV/LTSV/FIXED files written by the harness (88%: 301-900 records, else 2/3/17/160/299/300); 1-2 statements: scans, SELECT *, the same file twice in one query (self join, IN subquery), two files in a set operation, filters/joins/grouping/sorting/analytic functions over the files, DML on CSV/TSV files (not committed)")
 }
 
 func TestC13LoadJSON(t *testing.T) {
-	runCheck(t, "load_json", 60, 1200, genLoad([]string{"JSON", "JSONL"}),
+	runCheck(t, "load_json", 50, 1000, genLoad([]string{"JSON", "JSONL"}),
 		"like load_text with JSON and JSONL files")
 }
 
 func TestC13Error(t *testing.T) {
-	runCheck(t, "error", 110, 2200, genError,
+	runCheck(t, "error", 90, 1800, genError,
 		"one statement that fails while workers run: an expression that divides by zero / takes a modulus by zero / calls a user function that triggers an error exactly at the row with a chosen id inside the range of the 2nd or a later worker (25% at a range boundary; also two failing rows) or fails at every row (unknown column, unknown function, scalar subquery with several rows), placed in WHERE, the select list, a GROUP BY key, an aggregate argument, HAVING, a join condition, ORDER BY, an analytic argument or PARTITION BY, DISTINCT, INSERT..SELECT, UPDATE SET/WHERE, DELETE WHERE; 25% with a normal statement before it")
 }
 
 func TestC13Cancel(t *testing.T) {
-	runCheck(t, "cancel", 80, 1600, genCancel,
+	runCheck(t, "cancel", 70, 1400, genCancel,
 		"1-2 statements whose context is cancelled from another goroutine as soon as the 1st-4th parallel task manager of the program was created (plus 0-2000 scheduler yields); the moment is not an oracle")
+}
+
+func TestC13Recover(t *testing.T) {
+	runCheck(t, "recover", 90, 1800, genRecover,
+		"one session that goes on after errors (interactive shell, library): 1-3 statements failing in OFFSET / LIMIT / WHERE / ORDER BY evaluation, in a WITH clause, a subquery or set operation, on unknown objects, in DML, in a user function, then 1-3 statements of which the first has a per-row subquery evaluated by several workers")
 }
 
 func TestC13Sessions(t *testing.T) {
